@@ -209,6 +209,40 @@ def split_boundary(m, rng, need_dirichlet=True):
     return np.sort(bf[perm[:nd]]), np.sort(bf[perm[nd:]])
 
 
+def overlapping_selector(m, facets, rng, tag):
+    """-> (mesh with extra named boundaries, selector, description).  The selector denotes exactly the facet set
+    ``facets`` but as an OVERLAPPING collection: two tags sharing facets, a tag plus an index array containing some
+    of its facets, nested tuples, a set of tags — every way Mesh.normalize_facets accepts a collection."""
+    facets = np.asarray(facets)
+    k = len(facets)
+    if k == 0:
+        return m, facets, 'array(empty)'
+    perm = rng.permutation(k)
+    cut1 = int(rng.integers(1, k + 1))
+    cut0 = int(rng.integers(0, cut1))
+    A = np.sort(facets[perm[:cut1]])              # A and B cover facets and share perm[cut0:cut1]
+    B = np.sort(facets[perm[cut0:]])
+    old = dict(m.boundaries) if m.boundaries is not None else {}
+    m2 = m.with_boundaries({**old, tag + 'A': A, tag + 'B': B})
+    form = int(rng.integers(0, 5))
+    if form == 0:
+        sel, desc = [tag + 'A', tag + 'B'], 'list of two overlapping tags'
+    elif form == 1:
+        sel, desc = (tag + 'A', B.copy()), 'tuple (tag, index array sharing facets with it)'
+    elif form == 2:
+        sel, desc = [tag + 'A', (tag + 'B', A[:max(1, len(A) // 2)].copy())], 'nested list/tuple with repeats'
+    elif form == 3:
+        sel, desc = {tag + 'A', tag + 'B'}, 'set of two overlapping tags'
+    else:
+        sel, desc = [facets.copy(), tag + 'A', [tag + 'B']], 'list (index array, tag, [tag])'
+    return m2, sel, desc
+
+
+def _dofs_of(basis, sel):
+    """boundary DOFs of a facet selector: index arrays through facets=, tags / collections positionally"""
+    return basis.get_dofs(facets=sel) if isinstance(sel, np.ndarray) else basis.get_dofs(sel)
+
+
 def relerr(a, b):
     return float(np.max(np.abs(a - b)) / max(1.0, float(np.max(np.abs(b))))) if len(b) else 0.0
 
@@ -232,13 +266,20 @@ def patch_scalar(m, elem, deg, problem, rng, intorder=None, facet_bases=True):
         u = q + r2.scale(-(lq + 1.0) / (2 * dim))
     c = float(rng.integers(1, 4)) if problem == 'reaction' else 0.0
     kw = {} if intorder is None else {'intorder': intorder}
-    named = bool(rng.integers(0, 2)) and facet_bases
+    mode = int(rng.integers(0, 3)) if facet_bases else 0        # 0 index arrays, 1 single tags, 2 overlapping collections
+    named = mode == 1
     if facet_bases:
         fD, fN = split_boundary(m, rng, need_dirichlet=(problem != 'reaction'))
     else:                     # cell types without facet bases (prisms): Dirichlet data on the whole boundary
         fD, fN = m.boundary_facets(), np.zeros(0, dtype=np.int64)
+    selD, selN, seldesc = fD, fN, 'index arrays'
     if named:
         m = m.with_boundaries({'gD': fD, 'gN': fN} if len(fN) else {'gD': fD})
+        selD, selN, seldesc = 'gD', 'gN', 'single tags'
+    elif mode == 2:
+        m, selD, d1 = overlapping_selector(m, fD, rng, 'd')
+        m, selN, d2 = overlapping_selector(m, fN, rng, 'n')
+        seldesc = f'Dirichlet: {d1}; Neumann: {d2}'
     basis = Basis(m, elem, **kw)
     A = laplace.assemble(basis)
     if c:
@@ -249,19 +290,19 @@ def patch_scalar(m, elem, deg, problem, rng, intorder=None, facet_bases=True):
     else:
         b = LinearForm(lambda v, w: (-lapu(w.x) + c * u(w.x)) * v).assemble(basis)
     if len(fN):
-        fbN = FacetBasis(m, elem, facets=('gN' if named else fN), **kw)
+        fbN = FacetBasis(m, elem, facets=selN, **kw)
         b = b + LinearForm(lambda v, w: dot(u.grad(w.x), w.n) * v).assemble(fbN)
     xstar = basis.project(lambda x: u(x))
     if len(fD) and not facet_bases:
         x = solve(*condense(A, b, x=xstar, D=basis.get_dofs()))
     elif len(fD):
-        fbD = FacetBasis(m, elem, facets=('gD' if named else fD), **kw)
+        fbD = FacetBasis(m, elem, facets=selD, **kw)
         xD = fbD.project(lambda x: u(x))
-        D = basis.get_dofs('gD') if named else basis.get_dofs(facets=fD)
+        D = _dofs_of(basis, selD)
         x = solve(*condense(A, b, x=xD, D=D))
     else:
         x = solve(A, b)
-    info = {'problem': problem, 'elem': type(elem).__name__, 'deg': deg, 'c': c, 'u': u.describe(), 'named_boundaries': named,
+    info = {'problem': problem, 'elem': type(elem).__name__, 'deg': deg, 'c': c, 'u': u.describe(), 'facet_selectors': seldesc,
             'dirichlet_facets': fD.tolist(), 'neumann_facets': fN.tolist(), 'N': int(basis.N)}
     return relerr(x, xstar), info
 
@@ -276,21 +317,26 @@ def patch_vector_poisson(m, selem, deg, rng, intorder=None):
     L = [p.lap() for p in U]
     elem = ElementVector(selem)
     kw = {} if intorder is None else {'intorder': intorder}
-    basis = Basis(m, elem, **kw)
     fD, fN = split_boundary(m, rng, need_dirichlet=True)
+    selD, selN, seldesc = fD, fN, 'index arrays'
+    if rng.integers(0, 2):
+        m, selD, d1 = overlapping_selector(m, fD, rng, 'd')
+        m, selN, d2 = overlapping_selector(m, fN, rng, 'n')
+        seldesc = f'Dirichlet: {d1}; Neumann: {d2}'
+    basis = Basis(m, elem, **kw)
     A = vector_laplace.assemble(basis)
 
     def uvec(x):
         return np.array([U[i](x) for i in range(dim)])
     b = LinearForm(lambda v, w: dot(np.array([-L[i](w.x) for i in range(dim)]), v)).assemble(basis)
     if len(fN):
-        fbN = FacetBasis(m, elem, facets=fN, **kw)
+        fbN = FacetBasis(m, elem, facets=selN, **kw)
         b = b + LinearForm(lambda v, w: dot(np.array([sum(U[i].d(j)(w.x) * w.n[j] for j in range(dim)) for i in range(dim)]), v)).assemble(fbN)
     xstar = basis.project(uvec)
-    xD = FacetBasis(m, elem, facets=fD, **kw).project(uvec)
-    x = solve(*condense(A, b, x=xD, D=basis.get_dofs(facets=fD)))
+    xD = FacetBasis(m, elem, facets=selD, **kw).project(uvec)
+    x = solve(*condense(A, b, x=xD, D=_dofs_of(basis, selD)))
     info = {'problem': 'vector_poisson', 'elem': 'ElementVector(' + type(selem).__name__ + ')', 'deg': deg,
-            'u': [p.describe() for p in U], 'dirichlet_facets': fD.tolist(), 'neumann_facets': fN.tolist(), 'N': int(basis.N)}
+            'u': [p.describe() for p in U], 'facet_selectors': seldesc, 'dirichlet_facets': fD.tolist(), 'neumann_facets': fN.tolist(), 'N': int(basis.N)}
     return relerr(x, xstar), info
 
 
@@ -320,8 +366,13 @@ def patch_elasticity(m, selem, deg, rng, intorder=None):
         F.append(f.scale(-1.0))
     elem = ElementVector(selem)
     kw = {} if intorder is None else {'intorder': intorder}
-    basis = Basis(m, elem, **kw)
     fD, fN = split_boundary(m, rng, need_dirichlet=True)
+    selD, selN, seldesc = fD, fN, 'index arrays'
+    if rng.integers(0, 2):
+        m, selD, d1 = overlapping_selector(m, fD, rng, 'd')
+        m, selN, d2 = overlapping_selector(m, fN, rng, 'n')
+        seldesc = f'Dirichlet: {d1}; Neumann: {d2}'
+    basis = Basis(m, elem, **kw)
     A = linear_elasticity(lam_lib, mu_lib).assemble(basis)
 
     def fvec(x):
@@ -334,15 +385,15 @@ def patch_elasticity(m, selem, deg, rng, intorder=None):
         return np.array([sum(S[i][j](x) * n[j] for j in range(dim)) for i in range(dim)])
     b = LinearForm(lambda v, w: dot(fvec(w.x), v)).assemble(basis)
     if len(fN):
-        fbN = FacetBasis(m, elem, facets=fN, **kw)
+        fbN = FacetBasis(m, elem, facets=selN, **kw)
         b = b + LinearForm(lambda v, w: dot(traction(w.x, w.n), v)).assemble(fbN)
     xstar = basis.project(uvec)
-    fbD = FacetBasis(m, elem, facets=fD, **kw)
+    fbD = FacetBasis(m, elem, facets=selD, **kw)
     xD = fbD.project(uvec)
-    D = basis.get_dofs(facets=fD)
+    D = _dofs_of(basis, selD)
     x = solve(*condense(A, b, x=xD, D=D))
     info = {'problem': 'elasticity', 'elem': 'ElementVector(' + type(selem).__name__ + ')', 'deg': deg, 'E': E, 'nu': nu, 'plane_stress': pstress, 'lambda': lam, 'mu': mu,
-            'u': [p.describe() for p in U], 'dirichlet_facets': fD.tolist(), 'neumann_facets': fN.tolist(), 'N': int(basis.N)}
+            'u': [p.describe() for p in U], 'facet_selectors': seldesc, 'dirichlet_facets': fD.tolist(), 'neumann_facets': fN.tolist(), 'N': int(basis.N)}
     return relerr(x, xstar), info
 
 
@@ -385,25 +436,32 @@ def projection_subdomain(m, elem, rng, via_argument=False, intorder=None):
                           'elem': type(elem).__name__, 'cells': sub.tolist(), 'N': int(whole.N)}
 
 
-def projection_boundary(m, elem, rng, explicit=False, intorder=None):
+def projection_boundary(m, elem, rng, explicit=False, intorder=None, collection=False):
+    """explicit: facets given again through project(facets=...); collection: the facet set is named by an overlapping
+    collection of tags / index arrays (a facet reachable through two selectors must be integrated once)"""
     from skfem import Basis, FacetBasis
     kw = {} if intorder is None else {'intorder': intorder}
     bf = m.boundary_facets()
     k = int(rng.integers(1, len(bf) + 1))
     F = np.sort(bf[rng.permutation(len(bf))[:k]])
+    sel, seldesc = F, 'index array'
+    if collection:
+        m, sel, seldesc = overlapping_selector(m, F, rng, 'p')
     whole = Basis(m, elem, **kw)
     I = whole.get_dofs(facets=F).flatten()
     x = np.zeros(whole.N)
     x[I] = rng.uniform(-1, 1, len(I))
+    fbF = FacetBasis(m, elem, facets=sel, **kw)
     if explicit:
-        fb = FacetBasis(m, elem, **kw)          # all boundary facets, projection restricted by the argument
-        # a function supported on I restricted to the facets F only: use the trace on F
-        fbF = FacetBasis(m, elem, facets=F, **kw)
-        y = fbF.project(fbF.interpolate(x), facets=F)
+        y = fbF.project(fbF.interpolate(x), facets=sel)
     else:
-        fb = FacetBasis(m, elem, facets=F, **kw)
-        y = fb.project(fb.interpolate(x))
-    return relerr(y, x), {'what': 'boundary part', 'elem': type(elem).__name__, 'facets': F.tolist(), 'N': int(whole.N)}
+        y = fbF.project(fbF.interpolate(x))
+    # the facets of a collection must be counted once: the boundary measure is that of the plain facet set
+    from skfem import Functional
+    one = Functional(lambda w: 1.0 + 0.0 * w.x[0])
+    meas = abs(float(one.assemble(fbF)) - float(one.assemble(FacetBasis(m, elem, facets=F, **kw))))
+    err = max(relerr(y, x), meas / max(1.0, abs(float(one.assemble(FacetBasis(m, elem, facets=F, **kw))))))
+    return err, {'what': 'boundary part', 'elem': type(elem).__name__, 'facets': F.tolist(), 'facet_selector': seldesc, 'N': int(whole.N)}
 
 
 def curved_meshes(rng):
